@@ -97,7 +97,7 @@ def run(ctx):
     # ------------------------------------------------------------------ C01.1 / C01.2
     sites = P.callers(APPEND)
     store_sites = [s for s in sites if s.fn.path.startswith(STORE)]
-    ctx.floor('C01.1', 'EventLog::append sites in ContinuityStore', len(store_sites), 14)
+    ctx.floor('C01.1', 'EventLog::append sites in ContinuityStore', len(store_sites), 13)
     for s in store_sites:
         fn = s.fn
         short = fn.path[len(STORE):]
@@ -109,10 +109,31 @@ def run(ctx):
             raise CheckError('C01.1: cannot find the Event aggregate appended in %s (unrecognised idiom)' % fn.path)
         seq_op = agg['a'][agg['fields'].index('seq')]
         if not held:
-            # stream created in this very function: seq must be a constant
+            # no guard: nothing can justify the seq
             k = op_const(seq_op)
-            ctx.ob('C01.1', fn, 'seq-source', k is not None,
-                   'unguarded append uses %s seq' % ('constant %s' % k.get('v') if k else 'a NON-constant'), line=s.line)
+            ctx.ob('C01.1', fn, 'seq-source', False, 'unguarded append uses %s seq' % ('constant %s' % k.get('v') if k else 'a non-constant'), line=s.line)
+            continue
+        kconst = op_const(seq_op)
+        if kconst is not None:
+            # a constant seq under the guard is only right for the first frames of a stream this
+            # very function creates: the stream id is fresh here, frame k is the (k+1)-th append of
+            # the function, and next_seq is set to k+1 on its Ok edge, still under the guard
+            g = held[0]
+            k = int(kconst.get('v'))
+            sid = agg['a'][agg['fields'].index('session_id')]
+            sid_src = sources(fn, sid)
+            fresh = any(x[0] == 'call' and re.search(r'uuid::.*new_v4$', x[1]) for x in sid_src) or any(x[0] == 'param' for x in sid_src)
+            earlier = [o for o in store_sites if o.fn is fn and o is not s and fn.dom(o.bb, s.bb)]
+            ctx.ob('C01.1', fn, 'seq-source', fresh and len(earlier) == k,
+                   'constant seq %d under the guard: %s' % (k, 'the stream id is created in this function and this is its append #%d' % (k + 1) if fresh and len(earlier) == k else
+                                                          'NOT the (k+1)-th append of a stream created here'), line=s.line)
+            edge = ok_edge_of_try(fn, s)
+            okadv = False
+            for i in [i for i in fn.calls(r'hash::map::HashMap::insert$') if derives_from_local(fn, i.args[0], g)]:
+                kv = op_const(i.args[2])
+                if kv is not None and kv.get('v') == str(k + 1) and edge is not None and edge[1] is not None and fn.edge_dom(edge[0], edge[1], i.bb) and g in fn.held_at(i.bb, SEQ_GUARD):
+                    okadv = True
+            ctx.ob('C01.1', fn, 'advance', okadv, 'next_seq is set to %d on the Ok edge of the append, under the guard: %s' % (k + 1, okadv), line=s.line)
             continue
         g = held[0]
         src = sources(fn, seq_op)
